@@ -104,7 +104,9 @@ func (f *IPv4Filter) Remove(cidr *net.IPNet) error {
 func (f *IPv4Filter) Contains(ip net.IP) bool {
 	if f.matchAll.Load() {
 		return true
-	} else if len(ip) != net.IPv4len {
+	}
+	// accept the 16-byte form of an IPv4 address (e.g. from net.ParseIP)
+	if ip = ip.To4(); ip == nil {
 		return false
 	}
 
